@@ -62,3 +62,7 @@ class DuplicateStorage:
             List of code blocks with this hash
         """
         return self._cache.find_duplicates_by_hash(hash_value)
+
+    def close(self) -> None:
+        """Release the underlying SQLite cache (and its tempfile, if any)."""
+        self._cache.close()
